@@ -514,6 +514,27 @@ func c10Jobs(thorough bool) []c10Job {
 			}})
 		}
 	}
+	// (d) deferred predicates evaluated top-down: linear / left / double recursion x data without and with cycles x
+	// callers with a bound and an unbound input; evaluation under the fact limit must return
+	jobs = append(jobs, c10Job{"deferred-predicate grid", func(probe func(kind, input string)) {
+		decl := "Decl foo(X, Y) descr [deferred(), mode(\"+\", \"-\")].\n"
+		rules := []string{
+			"foo(X, Y) :- bar(X, Y).\nfoo(X, Y) :- bar(X, Z), foo(Z, Y).\n",
+			"foo(X, Y) :- bar(X, Z), foo(Z, Y).\n",
+			"foo(X, Y) :- bar(X, Y).\nfoo(X, Y) :- foo(X, Z), bar(Z, Y).\n",
+			"foo(X, Y) :- bar(X, Y).\nfoo(X, Y) :- bar(X, Z), foo(Z, W), foo(W, Y).\n",
+			"foo(X, Y) :- bar(X, Y), !bar(Y, X).\nfoo(X, Y) :- bar(X, Z), foo(Z, Y), Y != X.\n",
+		}
+		data := []string{"bar(1, 2). bar(2, 3).", "bar(1, 1).", "bar(1, 2). bar(2, 1).", "bar(1, 2). bar(2, 3). bar(3, 1). bar(3, 4).", ""}
+		callers := []string{"baz(Y) :- bar(A, _), foo(A, Y).", "baz(Y) :- foo(1, Y).", "baz(A) :- bar(A, _), foo(A, A).", "baz(Y) :- bar(A, B), foo(A, Y), foo(B, Y)."}
+		for _, ru := range rules {
+			for _, d := range data {
+				for _, c := range callers {
+					probe("unit", decl+d+"\n"+ru+c+"\n")
+				}
+			}
+		}
+	}})
 	// (t) transform grid: every do / let chain over variables that the body binds (X), that only the head mentions (Y),
 	// that nothing mentions (Z), as group-by keys, as reducer arguments and as the variable a statement defines
 	jobs = append(jobs, c10Job{"transform grid", func(probe func(kind, input string)) {
@@ -773,6 +794,6 @@ func c10(r *rt.Run) {
 	})
 	r.Extra["states"] = r.Get("evaluations")
 	r.Finish("(a) every token string of length <= k over a 49-token alphabet (k=3 quick, 4 thorough) and k+1 over a 29-token alphabet, offered to Unit/Clause/Term/LiteralOrFormula/PredicateName/Atom/BaseTerm; " +
-		"(b) every single-token deletion/duplication/replacement, every truncation and byte substitution of 19 valid sources (examples/*.mg + 3 inline; the quick tier leaves out the 9 KB flow_checking.mg); (c) every string <= 4 over 10 characters through ast.Unescape; (f) a built-in grid: every built-in function with every argument list of length <=3 over 5 argument forms in head / equality / let / reducer position and every built-in predicate with every argument list of length <=3 over 7 forms, plain and negated, x declarations x facts; (g) a type-expression grid: 12 constructors x every argument list of length <=3 over 9 forms x 6 values; (g2) 8 variadic constructors x every argument list of length 4-5 (thorough 6) over 5 forms; (g3) every ordered pair of 115 type expressions as the bounds of two predicates that a rule joins, copies and unites; (f2) every built-in function over 1-2 composite literals with mixed element types; (t) a transform grid: do / let chains whose keys, reducer arguments and defined variables range over variables the body binds, only the head mentions, nothing mentions (6 heads x 3 bodies x 7 keys x 4 x 6); (h) extreme literals in 12 templates; (i) a merge-predicate grid (8x8x8 column choices x 4 merge-predicate declarations); (e) a declaration grid: arity 0-3 x every pair of 33 descriptor items x 13 bound/inclusion forms x 4 continuations; " +
+		"(b) every single-token deletion/duplication/replacement, every truncation and byte substitution of 19 valid sources (examples/*.mg + 3 inline; the quick tier leaves out the 9 KB flow_checking.mg); (c) every string <= 4 over 10 characters through ast.Unescape; (f) a built-in grid: every built-in function with every argument list of length <=3 over 5 argument forms in head / equality / let / reducer position and every built-in predicate with every argument list of length <=3 over 7 forms, plain and negated, x declarations x facts; (g) a type-expression grid: 12 constructors x every argument list of length <=3 over 9 forms x 6 values; (g2) 8 variadic constructors x every argument list of length 4-5 (thorough 6) over 5 forms; (g3) every ordered pair of 115 type expressions as the bounds of two predicates that a rule joins, copies and unites; (f2) every built-in function over 1-2 composite literals with mixed element types; (d) a deferred-predicate grid: 5 recursion shapes x 5 data sets with and without cycles x 4 callers, evaluated top-down under the fact limit; (t) a transform grid: do / let chains whose keys, reducer arguments and defined variables range over variables the body binds, only the head mentions, nothing mentions (6 heads x 3 bodies x 7 keys x 4 x 6); (h) extreme literals in 12 templates; (i) a merge-predicate grid (8x8x8 column choices x 4 merge-predicate declarations); (e) a declaration grid: arity 0-3 x every pair of 33 descriptor items x 13 bound/inclusion forms x 4 continuations; " +
 		"(d) line deletions/duplications/blankings/replacements, digit replacements and truncations of 6 fact files, plain/gzip/zstd; units that parse go on to AnalyzeAndCheckBounds and EvalProgram under a fact limit; non-trivial = inputs that parse as a unit")
 }
